@@ -1,6 +1,8 @@
 import CffiVerif.Model.CInt
 
 /-! Helper lemmas about the integer model (`Model/CInt.lean`): little-endian bytes, raw reads of raw writes, `poke`. -/
+set_option linter.unusedSimpArgs false
+
 namespace CffiVerif.CInt
 
 theorem toLE_length (k n : Nat) : (toLE k n).length = k := by
@@ -119,5 +121,147 @@ theorem convert_bool (name : String) (w : Width) (data : List UInt8) (v : Int) :
       simp [hr, this, convertOverflow]
   · have hr : ¬ (0 ≤ v ∧ v ≤ 1) := by omega
     simp [hr]
+
+/-- closed form of `convertFromObject` on the integer kinds -/
+theorem convert_eq (T : IntType) (hT : T.isInt = true) (data : List UInt8) (v : Int) :
+    convertFromObject T data v =
+      if T.InRange v then (poke data (writeRaw v T.width), .ok ()) else (data, .error .overflow) := by
+  rcases T with ⟨name, w, k⟩
+  cases k
+  · rw [convert_signed]
+    simp only [IntType.InRange, IntType.lo, IntType.hi, IntType.bits]
+    cases w <;> simp [Width.bits, Width.bytes] <;> congr 1 <;> simp <;> omega
+  · rw [convert_unsigned]
+    simp only [IntType.InRange, IntType.lo, IntType.hi, IntType.bits]
+    cases w <;> simp [Width.bits, Width.bytes] <;> congr 1 <;> simp <;> omega
+  · rw [convert_bool]
+    simp only [IntType.InRange, IntType.lo, IntType.hi]
+    rfl
+  · simp [IntType.isInt] at hT
+  · simp [IntType.isInt] at hT
+
+
+theorem toLE_take (m k n : Nat) (h : k ≤ m) : (toLE m n).take k = toLE k n := by
+  induction k generalizing m n with
+  | zero => simp [toLE]
+  | succ k ih =>
+    cases m with
+    | zero => omega
+    | succ m => simp [toLE, ih m (n / 256) (by omega)]
+
+theorem toLE_zero (j : Nat) : toLE j 0 = List.replicate j 0 := by
+  induction j with
+  | zero => rfl
+  | succ j ih => simp [toLE, ih, List.replicate_succ]
+
+theorem toLE_extend (k j n : Nat) (h : n < 256 ^ k) : toLE (k + j) n = toLE k n ++ List.replicate j 0 := by
+  induction k generalizing n with
+  | zero =>
+    have : n = 0 := by simpa using h
+    subst this
+    simp [toLE, toLE_zero]
+  | succ k ih =>
+    have h' : n / 256 < 256 ^ k := by
+      rw [Nat.pow_succ] at h
+      exact Nat.div_lt_of_lt_mul (by rw [Nat.mul_comm]; exact h)
+    have : k + 1 + j = (k + j) + 1 := by omega
+    rw [this]
+    simp [toLE, ih (n / 256) h']
+
+/-- reading an in-range value back from its object representation -/
+theorem readInt_writeRaw (T : IntType) (hT : T.isInt = true) (v : Int) (h : T.InRange v)
+    (data : List UInt8) (hd : data.take T.bytes = writeRaw v T.width) :
+    readInt T data = .ok v := by
+  rcases T with ⟨name, w, k⟩
+  simp only [readInt, hd]
+  cases k <;> simp only [IntType.InRange, IntType.lo, IntType.hi, IntType.bits] at h
+  · simp only [readRawSigned_writeRaw]
+    congr 1
+    exact (wrapS_eq_iff w v).mpr (by cases w <;> simp [Width.bits, Width.bytes] at h ⊢ <;> omega)
+  · simp only [readRawUnsigned_writeRaw]
+    congr 1
+    exact (wrapU_eq_iff w v).mpr (by cases w <;> simp [Width.bits, Width.bytes] at h ⊢ <;> omega)
+  · simp only [readRawUnsigned_writeRaw]
+    have e : wrapU w.bits v = v :=
+      (wrapU_eq_iff w v).mpr (by cases w <;> simp [Width.bits, Width.bytes] at h ⊢ <;> omega)
+    rw [e]
+    have : v = 0 ∨ v = 1 := by omega
+    rcases this with rfl | rfl <;> simp
+  · simp [IntType.isInt] at hT
+  · simp [IntType.isInt] at hT
+
+theorem poke_take_le (data bs : List UInt8) (k : Nat) (h : k ≤ bs.length) :
+    (poke data bs).take k = bs.take k := by
+  simp [poke, List.take_append, Nat.sub_eq_zero_of_le h]
+
+theorem poke_zeros_take (result bs : List UInt8) (n : Nat) (h : bs.length ≤ n) :
+    (poke (poke result (List.replicate n 0)) bs).take n = bs ++ List.replicate (n - bs.length) 0 := by
+  unfold poke
+  rw [List.take_append, List.take_of_length_le h]
+  congr 1
+  rw [List.drop_append, List.drop_replicate, List.length_replicate, Nat.sub_eq_zero_of_le h, List.drop_zero]
+  rw [List.take_append, List.length_replicate, Nat.sub_self, List.take_zero, List.append_nil]
+  rw [List.take_replicate, Nat.min_self]
+
+
+/-! ### casts -/
+
+/-- a source the property speaks about: one byte, one code point of a Python str, an address -/
+def CastSrc.WF : CastSrc → Prop
+  | .bytes bs => bs.length = 1
+  | .str cps => ∃ cp, cps = [cp] ∧ cp ≤ 0x10FFFF
+  | .ptr a => a < 2 ^ 64
+  | _ => True
+
+theorem readInt_writeRaw_wrap (T : IntType) (hb : T.kind ≠ .bool) (value : Int) :
+    readInt T (writeRaw value T.width) = .ok (T.wrap value) := by
+  have ht : (writeRaw value T.width).take T.bytes = writeRaw value T.width :=
+    List.take_of_length_le (by rw [writeRaw_length]; exact Nat.le_refl _)
+  rcases T with ⟨n, w, k⟩
+  simp only [readInt, ht]
+  cases k <;>
+    simp [IntType.wrap, CInt.wrap, IntType.readsSigned, IntType.bits, readRawSigned_writeRaw,
+      readRawUnsigned_writeRaw] at hb ⊢
+
+theorem wrap_congr (T : IntType) (a b : Int) (h : a % 2 ^ 64 = b % 2 ^ 64) : T.wrap a = T.wrap b := by
+  rcases T with ⟨n, w, k⟩
+  cases k <;> cases w <;>
+    simp [IntType.wrap, CInt.wrap, IntType.readsSigned, IntType.bits, Width.bits, Width.bytes, wrapS, wrapU] at h ⊢ <;>
+    omega
+
+theorem castValue_congr (T : IntType) (hb : T.kind ≠ .bool) (src : CastSrc) (hwf : src.WF) :
+    ∃ value x, castValue T src = .ok value ∧ src.trunc = some x ∧ value % 2 ^ 64 = x % 2 ^ 64 := by
+  cases src with
+  | int v =>
+    refine ⟨(myAsUnsignedLongLong v false).1, v, by simp [castValue, hb], rfl, ?_⟩
+    simp [myAsUnsignedLongLong, pyLongAsUnsignedLongLongMask]
+  | bool b =>
+    refine ⟨(myAsUnsignedLongLong (if b then 1 else 0) false).1, _, by simp [castValue, hb], rfl, ?_⟩
+    simp [myAsUnsignedLongLong, pyLongAsUnsignedLongLongMask]
+  | float m e =>
+    refine ⟨(myAsUnsignedLongLong (floatTrunc m e) false).1, _, by simp [castValue, hb], rfl, ?_⟩
+    simp [myAsUnsignedLongLong, pyLongAsUnsignedLongLongMask]
+  | bytes bs =>
+    match bs, hwf with
+    | [b], _ => exact ⟨_, _, rfl, rfl, rfl⟩
+  | str cps =>
+    obtain ⟨cp, rfl, hcp⟩ := hwf
+    by_cases hk : T.kind = .swchar
+    · refine ⟨wrapU 64 (wrapS 32 (wrapU 32 cp)), cp, by simp [castValue, hk], rfl, ?_⟩
+      simp [wrapU, wrapS]; omega
+    · refine ⟨wrapU 32 cp, cp, by simp [castValue, hk], rfl, ?_⟩
+      simp [wrapU]; omega
+  | ptr a =>
+    refine ⟨_, a, rfl, rfl, ?_⟩
+    simp [CastSrc.WF] at hwf
+    simp [wrapU, wrapS]; omega
+
+/-- closed form of `int(ffi.cast(T, x))` for the non-`_Bool` types -/
+theorem castInt_eq_wrap (T : IntType) (hb : T.kind ≠ .bool) (src : CastSrc) (hwf : src.WF) :
+    ∃ x, src.trunc = some x ∧ castInt T src = .ok (T.wrap x) := by
+  obtain ⟨value, x, hv, hx, hc⟩ := castValue_congr T hb src hwf
+  refine ⟨x, hx, ?_⟩
+  simp only [castInt, cast, hv, hb, if_false]
+  rw [readInt_writeRaw_wrap T hb, wrap_congr T value x hc]
 
 end CffiVerif.CInt
